@@ -22,10 +22,14 @@ const (
 	PFB             // PFB wrapper: text, binary, text segments and the end marker
 	NoEexec         // no eexec: the private part follows in clear text
 	PFBSplit        // PFB with the text and the binary data each split over two segments
+	// BinaryHexStart: binary eexec whose first three cipher bytes are hex
+	// digits and only the fourth is not (the book requires just one of the
+	// first four not to be a hex digit).
+	BinaryHexStart
 	NumContainers
 )
 
-var containerNames = []string{"pfa", "binary", "pfb", "noeexec", "pfbsplit"}
+var containerNames = []string{"pfa", "binary", "pfb", "noeexec", "pfbsplit", "binary-hexstart"}
 
 // ContainerName names a container format.
 func ContainerName(c int) string { return containerNames[c] }
@@ -205,7 +209,7 @@ func psReal(v float64) string {
 
 // psNumber writes an integral value as an integer and anything else as a real.
 func psNumber(v float64) string {
-	if v == float64(int64(v)) && v > -1e15 && v < 1e15 {
+	if v > -1e15 && v < 1e15 && v == float64(int64(v)) {
 		return strconv.FormatInt(int64(v), 10)
 	}
 	return psReal(v)
@@ -265,6 +269,19 @@ func binaryLead() [4]byte {
 		}
 	}
 	panic("unreachable")
+}
+
+// hexStartLead finds lead bytes whose cipher bytes are 'a', '7', 'F' and a
+// byte that is neither a hex digit nor white space.
+func hexStartLead() [4]byte {
+	want := [4]byte{'a', '7', 'F', 0x9c}
+	var lead [4]byte
+	r := uint16(55665)
+	for i, c := range want {
+		lead[i] = c ^ byte(r>>8)
+		r = (uint16(c)+r)*52845 + 22719
+	}
+	return lead
 }
 
 type writer struct {
@@ -487,9 +504,17 @@ func Generate(m *t1model.Font, opt *Options) ([]byte, error) {
 			out.WriteString(eol)
 		}
 		out.Write(trailer.buf.Bytes())
-	case Binary:
+	case Binary, BinaryHexStart:
 		out.Write(clear.buf.Bytes())
-		out.Write(eexecEncrypt(priv.buf.Bytes(), binaryLead()))
+		lead := binaryLead()
+		if opt.Container == BinaryHexStart {
+			lead = hexStartLead()
+		}
+		cipher := eexecEncrypt(priv.buf.Bytes(), lead)
+		if opt.Container == BinaryHexStart && string(cipher[:3]) != "a7F" {
+			return nil, fmt.Errorf("internal: lead bytes do not give the wanted cipher bytes")
+		}
+		out.Write(cipher)
 		out.WriteString(eol)
 		out.Write(trailer.buf.Bytes())
 	case PFB, PFBSplit:
